@@ -304,6 +304,35 @@ def h_embed_lsb0(i):
     return h
 
 
+REPEAT_CASES = [   # (first call, second call): (format, values, kwargs, expected bits)
+    ((['uint:8', 'bool, hex:4'], (5, True, 'a'), {}, '00000101' + '1' + '1010'), (['uint:8', 'bool, hex:4'], (6, False, 'b'), {}, '00000110' + '0' + '1011')),
+    ((['uint:8', 'bool, hex:4'], (5, True, 'a'), {}, '00000101' + '1' + '1010'), ('uint:8', (7,), {}, '00000111')),
+    ((['uint:4=9', 'hex:8=f0'], (), {}, '1001' + '11110000'), (['uint:4=9', 'hex:8=f0'], (), {}, '1001' + '11110000')),
+    ((['uint:n', 'int:4'], (3, -1), {'n': 5}, '00011' + '1111'), ('uint:n', (3,), {'n': 5}, '00011')),
+    (('2*(uint:3, bool)', (1, True, 2, False), {}, '001' + '1' + '010' + '0'), ('2*(uint:3, bool)', (7, False, 0, True), {}, '111' + '0' + '000' + '1')),
+    (('bits, uint:4', ('0b101', 3), {}, '101' + '0011'), ('bits, uint:4', ('0b0', 15), {}, '0' + '1111')),
+    (('hex:8=a5, bin', ('11',), {}, '10100101' + '11'), ('hex:8=a5, bin', ('0',), {}, '10100101' + '0')),
+]
+
+
+def h_pack_twice():
+    """a format packed a second time (same or a related format, other values) gives the bits its tokens demand: nothing of the first call is left behind
+    (the real lru caches are live in this condition)"""
+    def h(K):
+        import bitstring
+        from kit import env
+        env.clear_caches()
+        first, second = K.choice('case', REPEAT_CASES)
+        for which, (fmt, vals, kw, want) in (('first', first), ('second', second), ('first again', first)):
+            r = call(lambda: bitstring.pack(fmt, *vals, **kw))
+            if not r.ok:
+                return K.fail('pack raised for conforming values', call=which, fmt=repr(fmt), exc=r.excname)
+            if not K.check(same(raw(r.value), O.from01(want)), 'pack does not give the bits of its tokens', call=which, fmt=repr(fmt), got=raw(r.value), expected=want):
+                return False
+        return True
+    return h
+
+
 def h_kw_values():
     """pack with values given by keyword equals pack with positional values"""
     def h(K):
@@ -375,6 +404,8 @@ def conditions(tier):
     for i, (tok, eq) in enumerate(EMBED):
         if eq is not None:
             conds.append(Cond(f'C05.embedded-lsb0[{tok}]', h_embed_lsb0(i), 'concrete token string with embedded values, four classes, options.lsb0 = True', D, {'ntok': _ntok(tok)}, timeout=T))
+    from kit import env as _env
+    conds.append(Cond('C05.pack-twice', h_pack_twice(), f'{len(REPEAT_CASES)} pairs of concrete pack calls (chosen by solver forks), each sequence first / second / first again; live lru caches', D, {}, timeout=T, setup=_env.live_caches))
     add('C05.kw-values', h_kw_values(), 'a in [0,255], b in [-8,7], n in {4,8}')
     for e in ('stretchy-last', 'stretchy-first', 'stretchy-mid-hex', 'stretchy-bytes', 'stretchy-bytes-tail'):
         for n in ([0, 7, 13, 24] if q else list(range(0, 34))):
